@@ -97,6 +97,7 @@ func writeEvidence(prop, tier string, seed uint64, cfg tierCfg, ws *Workspace, m
 			"C05": "cell = (history shape | option kind class | subset of {cli, ini, env, default, stored} present for a judged option); at most 4 x 5 x 32 = 640",
 			"C12": "cell = (kind class : value class written | IniOptions)",
 			"C04": "cell = (token class present in argv | outcome class)",
+			"C15": "cell = (woven map-iteration site / number of keys : permutation applied), for events with 2..4 keys; at most n! per (site, n)",
 		}[prop]
 	}
 	ev := map[string]interface{}{
